@@ -138,8 +138,8 @@ def _exec(ex, frame, e, base=None):
     cmd = ex.st.ghost.get('coro_cmd')
     if isinstance(cmd, VRef) and cmd.sort.name == 'Command':
         return _response_for(ex, ex.st.heap_get(cmd, 'tag'))
-    # the greeting (ASSUMED: do_greeting answers OK / PREAUTH, or raises ResponseError -- a BYE greeting is built by the
-    # loop's own handler)
+    # the greeting: do_greeting answers an untagged OK / PREAUTH, never a BYE (proved on the real method: contracts/state.py
+    # `do_greeting`, part of C05), or raises -- a BYE greeting is built by the loop's own handler
     r = _response_for(ex, STAR)
     ex.assume(z3.Not(_b(ex.st.heap_get(r, 'is_terminal'))))
     return r
